@@ -26,6 +26,13 @@ MAIN = {
     "filtercb": "[1, 2].filter(func(x) { for { tick(0) } })",
     "sortedcb": "sorted([3, 1, 2], func(a, b) { for { tick(0) } })",
     "trycb": "try(func() { for { tick(0) } })\nfor { tick(0) }",
+    # programs that come to their END once the cancellation has cut their last construct short: the call still
+    # returns the context's error, not success (try recovers the halted function's error; an interrupted sleep or
+    # channel iteration returns an ordinary value)
+    "tryfin": "try(func() { for { tick(0) } }, 7)",
+    "sleepfin": "tick(0)\ntick(0)\ntick(0)\nimport time\ntime.sleep(30)\n42",
+    "iterfin": "tick(0)\ntick(0)\ntick(0)\nc := chan()\nfor _, v := range c { tick(0) }\n42",
+    "recvtryfin": "tick(0)\ntick(0)\ntick(0)\nc := chan()\ntry(func() { c.receive() }, 7)",
     "send": "tick(0)\ntick(0)\ntick(0)\nc := chan()\nc <- 1\nfor { tick(0) }",
     "recv": "tick(0)\ntick(0)\ntick(0)\nc := chan()\nv := <-c\nfor { tick(0) }",
     "chaniter": "tick(0)\ntick(0)\ntick(0)\nc := chan()\nfor _, v := range c { tick(0) }\nfor { tick(0) }",
